@@ -424,7 +424,36 @@ func c11CopyAfterDefaults(c *Ctx, r *Report, rule string) {
 			return
 		}
 		src := ld.X // the digested TSIG
+		// only the copy that goes on the wire (the record handed to PackRR); a private working copy of the caller's
+		// stub is not it
+		onWire := false
+		for _, ci := range callsIn(fn, "PackRR") {
+			a := ci.Common().Args[0]
+			for {
+				if mi, ok := a.(*ssa.MakeInterface); ok {
+					a = mi.X
+					continue
+				}
+				if ch, ok := a.(*ssa.ChangeInterface); ok {
+					a = ch.X
+					continue
+				}
+				break
+			}
+			if a == st.Addr {
+				onWire = true
+			}
+		}
+		if !onWire {
+			return
+		}
 		n++
+		// ... and it is a copy of the very record that is digested
+		for _, ci := range callsIn(fn, "tsigBuffer") {
+			if len(ci.Common().Args) > 1 && ci.Common().Args[1] != src {
+				r.fail(rule, fmt.Sprintf("TsigGenerateWithProvider:wire-copy#%d:source", n), c.pos(st.Pos()), "the TSIG that goes on the wire is copied from %s, the one that is digested is %s: the MAC covers the defaulted values (time signed, fudge 300) while the message carries the other record's, so the message does not verify", describeValue(src), describeValue(ci.Common().Args[1]))
+			}
+		}
 		after := reach(st.Block(), nil, nil)
 		var late []string
 		allInstrs(fn, func(x ssa.Instruction) {
